@@ -88,7 +88,8 @@ def run_doc(case, o):
     # --- parse_root vs full parse
     try: pr = xml_.parse_root(src); pr = [X._lx_name(pr[0]), sorted([X._lx_name(k), B(v)] for k, v in pr[1].items())]
     except Exception as e: pr = None
-    try: e = xml_.to_ele(src)
+    ht = bool(case.get('huge'))
+    try: e = xml_.to_ele(src, huge_tree=ht) if ht else xml_.to_ele(src)
     except Exception as ex: e = None
     first = next((x for x in evs if x[0] in 'sx'), None)
     if pr is not None and (first is None or first[0] == 'x'):
@@ -120,7 +121,7 @@ def run_doc(case, o):
     ok, n = decl_ok(out)
     if not ok:
         o.fail('serialised form does not carry exactly one XML declaration (%d)' % n, expected=1, actual=n)
-    try: back = X.canon(X.lx_tree(xml_.to_ele(out)))
+    try: back = X.canon(X.lx_tree(xml_.to_ele(out, huge_tree=ht) if ht else xml_.to_ele(out)))
     except Exception as ex: back = 'to_ele: ' + exc_name(ex)
     if back != want:
         o.fail('to_ele(to_xml(t)) is not equivalent to t', expected=want, actual=back)
@@ -294,8 +295,11 @@ def gen_doc_case(rng, g):
     if r < 0.25: pro = '<?xml version="1.0" encoding="UTF-8"?>' + rng.choice(['', '\n'])
     elif r < 0.3: pro = "<?xml version='1.0'?>\n"
     if rng.random() < 0.15: pro += '<!--prolog-->' + rng.choice(['', '\n', '<?pi x?>'])
+    if rng.random() < 0.04: pro += '<!--' + 'long prolog ' * rng.choice([400, 700]) + '-->'      # the root start tag lies beyond 4096 characters
     epi = rng.choice(['', '', '', '\n', '<!--epilog-->', ' <?pi y?>\n'])
-    return {'kind': 'doc', 'src': pro + body + epi, 'wellformed': True}, sd, exp
+    c = {'kind': 'doc', 'src': pro + body + epi, 'wellformed': True}
+    if rng.random() < 0.2: c['huge'] = True              # the huge_tree variant of to_ele must behave the same on ordinary documents
+    return c, sd, exp
 
 def malform(rng, src):
     r = rng.random()
@@ -441,7 +445,24 @@ def nontrivial(case):
 def jsonable(c):
     c = dict(c); c.pop('expected', None); return c
 
+def warm_up():
+    """What an application with huge_tree enabled does before anything else: render a transformed reply. Whatever that
+    creates or caches inside xml_ must not change how to_ele / to_xml behave afterwards."""
+    from ncclient import xml_
+    from ncclient.manager import make_device_handler
+    from ncclient.operations.rpc import RPCReply
+    try:
+        for prof in ('junos', 'alu'):
+            dh = make_device_handler({'name': prof})
+            r = RPCReply('<rpc-reply xmlns="urn:ietf:params:xml:ns:netconf:base:1.0" message-id="1">\n <data> <a xmlns="urn:x"> t </a>\n </data>\n</rpc-reply>', huge_tree=True)
+            r.parse()
+            n = xml_.NCElement(r, dh.transform_reply(), huge_tree=True)
+            n.tostring; n.data_xml; n.find('.//a')
+    except Exception:
+        pass
+
 def run(ctx):
+    warm_up()
     import sys
     sys.setrecursionlimit(20000)
     cases = []
